@@ -304,7 +304,7 @@ impl Gen {
 
     fn route_for(&mut self, kind: Kind, storing_some: bool) -> Route {
         match kind {
-            Kind::Node => [Route::Default, Route::WriteUnlock, Route::TryBorrowMut][self.rng.below(3)],
+            Kind::Node | Kind::Bag => [Route::Default, Route::WriteUnlock, Route::TryBorrowMut][self.rng.below(3)],
             Kind::Cell => [Route::Default, Route::WriteUnlock][self.rng.below(2)],
             Kind::Once => [Route::Default, Route::GetOrInit][self.rng.below(2)],
             Kind::Slice { .. } => [Route::Default, Route::ViaThin, Route::ViaRange][self.rng.below(3)],
